@@ -32,6 +32,14 @@ func CheckDelivery(c Config, o *Outcome) []string {
 		if !eqInts(o.Got[0], want) {
 			bad = append(bad, fmt.Sprintf("fmap output %v, want %v (each item once, in order)", o.Got[0], want))
 		}
+	case "fmapch":
+		want := make([]int, len(c.Items[0]))
+		for i, v := range c.Items[0] {
+			want[i] = FCh(v)
+		}
+		if !eqInts(o.Got[0], want) {
+			bad = append(bad, fmt.Sprintf("fmap (channel-valued function) output %v, want %v: one output item per input item, in order (999999 = nil)", o.Got[0], want))
+		}
 	case "dup":
 		for k := 0; k < 2; k++ {
 			if !eqInts(o.Got[k], c.Items[0]) {
@@ -68,7 +76,7 @@ func isInput(ch string) bool {
 
 func isOutput(c Config, ch string) bool {
 	switch c.Sys {
-	case "fmap":
+	case "fmap", "fmapch":
 		return ch == "fmap.out"
 	case "dup":
 		return ch == "dup.cc1" || ch == "dup.cc2"
@@ -187,7 +195,7 @@ func CheckLogC19(c Config, log []vsched.Event) []string {
 	}
 	outs := []string{"join.out"}
 	switch c.Sys {
-	case "fmap":
+	case "fmap", "fmapch":
 		outs = []string{"fmap.out"}
 	case "dup":
 		outs = []string{"dup.cc1", "dup.cc2"}
